@@ -43,6 +43,7 @@ type sbrAction struct {
 	NoStrm  bool   `json:"ns,omitempty"` // start: "stream": false
 	Empty   bool   `json:"e,omitempty"`  // start: no prompt / messages / input (a "load" request; with keep_alive 0 an unload)
 	Work    int    `json:"w,omitempty"`  // start: index into sbrWork: how long the runner takes to answer (0 = until a finish action)
+	Delay   int    `json:"dl,omitempty"` // start, unload: index into sbrDelay: the request arrives this much virtual time later
 	Idx     int    `json:"i,omitempty"`  // intent index, taken modulo the live candidates
 	Dur     int    `json:"d,omitempty"`  // advance: index into sbDurations
 	Fail    bool   `json:"f,omitempty"`  // ping: make it fail
@@ -70,7 +71,10 @@ var (
 	sbrKeepDur = []time.Duration{-1, 0, 30 * time.Millisecond, 2 * time.Second, time.Minute, time.Duration(math.MaxInt64)}
 	// how long the fake runner works on a request (virtual time); -1: until the harness finishes it
 	sbrWork = []time.Duration{-1, 0, time.Millisecond, 30 * time.Millisecond, 250 * time.Millisecond}
-	sbrReqs = []string{"generate", "generate", "generate", "chat", "chat", "embed", "embeddings"}
+	// a request can arrive later, at an exact virtual instant (the same instant as a keep-alive expiry, the end of another
+	// request, the scheduler's 10 ms expiry retry or its 250 ms reschedule delay)
+	sbrDelay = []time.Duration{0, time.Millisecond, 10 * time.Millisecond, 30*time.Millisecond - 1, 30 * time.Millisecond, 250 * time.Millisecond, 2 * time.Second}
+	sbrReqs  = []string{"generate", "generate", "generate", "chat", "chat", "embed", "embeddings"}
 )
 
 const sbrNumVariants = 4 // 0 default, 1 num_ctx 4096, 2 num_batch 256, 3 num_gpu 0
@@ -107,6 +111,9 @@ func sbrGen(t *rapid.T) sbrCase {
 			a.NoStrm = rapid.Bool().Draw(t, "nostream")
 			a.Empty = rapid.IntRange(0, 6).Draw(t, "empty") == 0
 			a.Work = rapid.SampledFrom([]int{0, 0, 0, 0, 1, 2, 3, 4}).Draw(t, "work")
+			if rapid.IntRange(0, 3).Draw(t, "delayed") == 0 {
+				a.Delay = rapid.IntRange(1, len(sbrDelay)-1).Draw(t, "delay")
+			}
 		case "finish", "giveup", "loadok", "loadfail":
 			a.Idx = rapid.IntRange(0, 5).Draw(t, "idx")
 		case "ping":
@@ -115,6 +122,9 @@ func sbrGen(t *rapid.T) sbrCase {
 		case "unload":
 			a.Model = rapid.IntRange(0, 3).Draw(t, "model")
 			a.Req = rapid.SampledFrom([]string{"generate", "generate", "chat"}).Draw(t, "req")
+			if rapid.IntRange(0, 3).Draw(t, "delayed") == 0 {
+				a.Delay = rapid.IntRange(1, len(sbrDelay)-1).Draw(t, "delay")
+			}
 		case "advance":
 			a.Dur = rapid.IntRange(0, len(sbDurations)-1).Draw(t, "dur")
 		}
@@ -221,6 +231,7 @@ func (s *sbrSrv) use(ctx context.Context, what string) *sbrReq {
 	e.logf("%s req=%d inst=%d", what, r.sb.id, s.id)
 	if r.answeredEv == 0 {
 		r.answeredEv = x.ev // the scheduler has answered: the handler is past scheduleRunner
+		r.dequeuedEv = x.ev
 		r.sb.replies++
 	}
 	if r.sb.finished {
@@ -331,6 +342,7 @@ type sbrReq struct {
 	unload bool // takes the expireRunner path (may wait on a runner's mutex)
 
 	startEv, answeredEv, servedEv int // event stamps (0 = not yet); all under sbEngine.mu
+	dequeuedEv                    int // the request is known to have left the scheduler's queue (0 = it may still be in it)
 	served                        bool
 	status                        int
 	gaveUp                        bool
@@ -466,12 +478,33 @@ func (x *sbrEngine) start(a sbrAction, unload bool) {
 	r.quiet = draining
 	e.reqs = append(e.reqs, r.sb)
 	x.reqs = append(x.reqs, r)
-	e.logf("start req=%d POST %s %s", r.sb.id, path, js)
+	// A request that arrives later must not be able to start a gated load: virtual time cannot advance while a goroutine
+	// waits on the mutex a gated load holds (DESIGN 2.3), and this request would arrive while the harness sleeps.
+	delay := sbrDelay[a.Delay%len(sbrDelay)]
+	if x.c.Gated[m] && !unload || draining {
+		delay = 0
+	}
+	if delay > 0 {
+		e.flag("delayed_arrival")
+		e.logf("start req=%d in %v POST %s %s", r.sb.id, delay, path, js)
+	} else {
+		e.logf("start req=%d POST %s %s", r.sb.id, path, js)
+	}
 	e.mu.Unlock()
-	if unload {
+	if unload && delay == 0 {
 		e.unloading.Add(1) // expireRunner runs on the handler's goroutine and can wait on the mutex of a loading runner
 	}
 	go func() {
+		if delay > 0 {
+			time.Sleep(delay)
+			e.mu.Lock()
+			x.ev++
+			e.logf("arrive req=%d", r.sb.id)
+			e.mu.Unlock()
+			if unload {
+				e.unloading.Add(1)
+			}
+		}
 		x.h.ServeHTTP(r.rw, hreq)
 		x.served(r)
 		if unload {
@@ -538,6 +571,12 @@ func (x *sbrEngine) served(r *sbrReq) {
 	if r.answeredEv == 0 {
 		r.answeredEv = x.ev
 		r.sb.replies++
+		if !r.gaveUp {
+			// a handler that returns to a client that is still there has its answer from the scheduler. After the client
+			// gave up nothing is known: the scheduler drops a cancelled request only when it reaches the head of the queue
+			// (and an implementation may let the handler return earlier), so it counts as queued for good.
+			r.dequeuedEv = x.ev
+		}
 	}
 	line := body
 	if len(line) > 160 {
@@ -562,10 +601,10 @@ func (x *sbrEngine) served(r *sbrReq) {
 	case code == http.StatusServiceUnavailable || busyText:
 		e.flag("max_queue")
 		// C02: "busy" only when the queue is full. Every request that can have been in the queue at the moment this one
-		// was refused was started before now and had not been seen answered when this one started.
+		// was refused was started before now and was not known to have left the queue when this one started.
 		n := 0
 		for _, q := range x.reqs {
-			if q != r && (q.answeredEv == 0 || q.answeredEv > r.startEv) {
+			if q != r && (q.dequeuedEv == 0 || q.dequeuedEv > r.startEv) {
 				n++
 			}
 		}
@@ -586,7 +625,7 @@ func (x *sbrEngine) do(a sbrAction) {
 	case "start":
 		x.start(a, false)
 	case "unload":
-		x.start(sbrAction{Kind: "unload", Req: a.Req, Model: a.Model}, true)
+		x.start(sbrAction{Kind: "unload", Req: a.Req, Model: a.Model, Delay: a.Delay}, true)
 	case "giveup":
 		e.mu.Lock()
 		var cand []*sbrReq
@@ -733,7 +772,7 @@ func (x *sbrEngine) drain() {
 	e.settle()
 	// infinite keep-alive: explicit unload through the API, as `ollama stop` does
 	for m := 0; m < x.c.NModels; m++ {
-		x.start(sbrAction{Kind: "unload", Req: "generate", Model: m}, true)
+		x.start(sbrAction{Kind: "unload", Req: []string{"generate", "chat"}[m%2], Model: m}, true) // both unload routes
 		e.settle()
 	}
 	time.Sleep(time.Second)
